@@ -99,6 +99,10 @@ def reach(o, acc=None):
         for e in o.get_edges():
             acc[id(e)] = e
             reach(e.meta, acc)
+            for end in (getattr(e, '_source', None), getattr(e, '_destination', None)):
+                if end is not None:          # the end points of an edge are objects of the graph that holds the edge
+                    acc[id(end)] = end
+                    reach(getattr(end, 'meta', None), acc)
         for a in ('_networkx', '_adjacency', '_variables'):
             if getattr(o, a, None) is not None:
                 reach(getattr(o, a), acc)
@@ -106,6 +110,23 @@ def reach(o, acc=None):
             if hasattr(o, a):
                 for lst in getattr(o, a).values():
                     acc[id(lst)] = lst
+                    for n in lst:            # ... and so are the nodes its lag / variable look-ups list
+                        acc[id(n)] = n
+                        reach(getattr(n, 'meta', None), acc)
+        # every other mutable container the object holds under ANY attribute name -- instance attributes and class-level
+        # ones (a container bound on the class is shared by every graph, copy and derived graph): separation sets, indexes,
+        # memoised answers added later, cached derived graphs
+        seen_names = set()
+        for owner in [vars(o)] + [vars(k) for k in type(o).__mro__ if k is not object]:
+            for name, v in list(owner.items()):
+                if name.startswith('__') or name in seen_names:
+                    continue
+                seen_names.add(name)
+                if isinstance(v, (dict, list, set, numpy.ndarray, networkx.Graph, CausalGraph)):
+                    if isinstance(v, set):
+                        acc[id(v)] = v
+                    else:
+                        reach(v, acc)
     return acc
 
 
@@ -188,6 +209,7 @@ def snapshot(g):
         'nodes': [[n.identifier, str(n.variable_type), canon(n.meta)] for n in g.get_nodes()],
         'edges': [[e._source.identifier, e._destination.identifier, str(e._edge_type), canon(e.meta)]
                   for e in g.get_edges()],
+        'sepsets': canon(g.sepsets),
         'names': g.get_node_names(),
         'pairs': [list(p) for p in g.get_edge_pairs()],
         'in': [[n.identifier, sorted(x._source.identifier for x in n._inbound_edges)] for n in g.get_nodes()],
@@ -244,7 +266,35 @@ def deep_mutate(o, tag=MUT, seen=None):
             deep_mutate(n.meta, tag, seen)
         for e in o.get_edges():
             deep_mutate(e.meta, tag, seen)
+        try:
+            o.sepsets[MUT] = tag          # the separation sets of a derived graph / copy are its own
+        except Exception:  # noqa: BLE001
+            pass
         o.add_node(MUT + 'node')
+
+
+def foreign_objects(x):
+    """first place where a graph refers to a node object that is not its own node of that name (None = coherent)"""
+    try:
+        for e in x.get_edges():
+            for end in (e.source, e.destination):
+                if x.get_node(end.identifier) is not end:
+                    return f'edge {e.get_edge_pair()} ends in a node object that is not graph.get_node({end.identifier!r})'
+        for n in x.get_nodes():
+            for e in list(n.get_inbound_edges()) + list(n.get_outbound_edges()):
+                if x.get_edge(*e.get_edge_pair()) is not e:
+                    return f'node {n.identifier!r} lists an edge object that is not graph.get_edge{e.get_edge_pair()}'
+        if hasattr(x, 'get_nodes_at_lag'):
+            for n in x.get_nodes():
+                for lst, what in ((x.get_nodes_at_lag(n.time_lag), f'get_nodes_at_lag({n.time_lag})'),
+                                  (x.get_nodes_for_variable_name(n.variable_name),
+                                   f'get_nodes_for_variable_name({n.variable_name!r})')):
+                    for m in lst:
+                        if x.get_node(m.identifier) is not m:
+                            return f'{what} lists a node object that is not graph.get_node({m.identifier!r})'
+    except Exception as e:  # noqa: BLE001
+        return f'walking the graph raised {type(e).__name__}: {e}'
+    return None
 
 
 def top_level_leak(g):
@@ -953,6 +1003,15 @@ class Lane(LaneBase):
         v1 = dumps(canon(e1))
         e2 = call_api(case, g, held)
         v2 = dumps(canon(e2))
+        # 0. a graph is made of its OWN objects: the end points of its edges and the nodes its look-ups list are the very
+        #    node objects get_node returns (a derived graph whose edge points at a node of the source graph, or at a detached
+        #    temporary, is changed by editing something else)
+        _, _, _CG, _, _ = _types()
+        for label, x in (('the source graph', g), ('the export', e1)):
+            if isinstance(x, _CG):
+                bad = foreign_objects(x)
+                if bad:
+                    fail('foreign-object', f'{label}: {bad}')
         # 1. change the first export
         deep_mutate(e1)
         top = api != 'from_dict' and top_level_leak(g)
